@@ -84,9 +84,9 @@ func runCmd(dir string, timeout time.Duration, name string, args ...string) (rc 
 
 var rePanicLine = regexp.MustCompile(`(?m)^(panic: .*|fatal error: .*|\[signal .*)$`)
 
-func genOnce(self, mod string) GenRun {
-	rc, out, to := runCmd(mod, 90*time.Second, self, "c17-gen", mod, "./p")
-	gf := filepath.Join(mod, "p", "zz_generated.deepcopy.go")
+func genOnce(self, mod, base string) GenRun {
+	rc, out, to := runCmd(mod, 90*time.Second, self, "c17-gen", mod, "./p", base)
+	gf := filepath.Join(mod, "p", base+".deepcopy.go")
 	switch {
 	case to:
 		return GenRun{Status: "timeout"}
@@ -221,12 +221,14 @@ func (prop) Run(raw json.RawMessage, scratch string) core.Result {
 	// --- the real generator, three times ---
 	first := ""
 	for k := 0; k < 3; k++ {
-		g := genOnce(self, mod)
+		g := genOnce(self, mod, in.base())
 		obs.Runs = append(obs.Runs, g)
-		if k == 0 && g.Status == "file" {
-			// the output of the FIRST run must compile too (later runs may overwrite it with different code)
+		// the package must compile after EVERY run: after the first one, and after a later one that left something else
+		// behind (other bytes, or no file at all) than the run before it
+		changed := k == 0 || g.Status != obs.Runs[k-1].Status || !bytes.Equal(g.src, obs.Runs[k-1].src)
+		if first == "" && changed && (g.Status == "file" || k > 0) {
 			if rc, out, to := runCmd(mod, 240*time.Second, "go", "build", "./p"); rc != 0 || to {
-				first = "after run 1: " + firstLines(out, 4)
+				first = fmt.Sprintf("after run %d: %s", k+1, firstLines(out, 4))
 			}
 		}
 		if g.Status == "crash" || g.Status == "timeout" || g.Status == "error" {
@@ -362,6 +364,9 @@ func (in *Input) knownClass() string {
 	if c := in.shadowClass(); c != "" {
 		return c
 	}
+	if in.hasBlankField() {
+		return "blank_field"
+	}
 	for _, d := range in.Decls {
 		for _, f := range d.Fields {
 			if f.K == KError {
@@ -476,6 +481,9 @@ func tagsOf(in *Input, obs *Observed) ([]string, bool) {
 	}
 	depth := in.depth()
 	set[fmt.Sprintf("depth=%d", depth)] = true
+	if in.Base != "" {
+		set["output_base_not_zz_generated"] = true
+	}
 	nontrivial := false
 	for i := range in.Decls {
 		d := &in.Decls[i]
@@ -488,6 +496,10 @@ func tagsOf(in *Input, obs *Observed) ([]string, bool) {
 		}
 		for _, f := range d.Fields {
 			set["field_"+f.K] = true
+			set["fieldname_"+nameShapeOf(f.Name)] = true
+			if !in.enabled(d) {
+				set["fieldname_"+nameShapeOf(f.Name)+"_in_untagged_type"] = true
+			}
 			if f.K == KNamed {
 				if t := in.decl(f.A); t != nil {
 					set["field_named_"+t.Kind] = true
